@@ -6,7 +6,7 @@
 //verif:include ../C04/l1a_execute.go
 //verif:include ../C04/l1b_status.go
 //verif:include ../C04/l2_servers.go
-//verif:harness H_C04_execute thorough-only
+//verif:harness H_C04_execute
 //verif:harness H_C04_status
 //verif:harness H_C04_servers
 package ocsp
